@@ -1339,7 +1339,7 @@ class Gen(object):
     def scene(self, name=None):
         r = self.rng
         name = name or r.choice(["topic", "captcha", "gates", "privs", "oper", "services", "limits", "holds", "quitlink",
-                                 "latelink", "reincarnate"])
+                                 "latelink", "reincarnate", "away", "invisible"])
         cast = self._cast()
         if cast is None:
             return
@@ -1439,6 +1439,9 @@ class Gen(object):
             M(L, b":%s PRIVMSG %s :%s" % (p1, r.choice([c, x.nick or b"x"]), t()))
             M(x, b"PRIVMSG %s :identify pw" % p1)
             M(L, b"SVSMODE %s +r" % (x.nick or b"x"))
+            M(L, b":%s TOPIC %s :" % (p1, c))                       # unset the topic (two parameters)
+            M(L, b":%s TOPIC %s %s 1422134861 :%s" % (p1, c, p1, t()))
+            M(L, r.choice([b":%s KILL %s" % (p1, x.nick or b"x"), b"SVSHOLD %s" % (m.nick or b"m"), b":%s INVITE %s %s" % (p1, x.nick or b"x", c)]))
         elif name == "limits":
             cfg = dict(self.cfg or self._config())
             k = r.random()
@@ -1478,6 +1481,26 @@ class Gen(object):
                 M(L2, b"SERVER services%d.example 1 :Late services" % r.randint(2, 9))
                 if self.link is None or not self.link.alive:
                     self.link = L2
+        elif name == "away":
+            # RPL_AWAY wherever somebody addresses an away user
+            M(x, b"AWAY :%s" % (t() or b"gone"))
+            M(o, b"PRIVMSG %s :are you there?" % (x.nick or b"x"))
+            M(o, b"NOTICE %s :no away reply for notices" % (x.nick or b"x"))
+            M(m, b"WHOIS %s" % (x.nick or b"x"))
+            M(o, b"INVITE %s %s" % (x.nick or b"x", c))
+            M(m, b"USERHOST %s %s" % (x.nick or b"x", o.nick or b"o"))
+            M(x, r.choice([b"AWAY", b"AWAY :"]))
+            M(o, b"PRIVMSG %s :back?" % (x.nick or b"x"))
+        elif name == "invisible":
+            # +i users are hidden from NAMES / WHO of people outside the channel
+            M(m, b"MODE %s +i" % (m.nick or b"m"))
+            M(x, b"NAMES " + c)
+            M(x, b"WHO " + c)
+            M(o, b"NAMES " + c)
+            M(o, b"WHO " + c)
+            M(x, b"WHOIS %s" % (m.nick or b"m"))
+            M(m, b"MODE %s -i" % (m.nick or b"m"))
+            M(x, b"NAMES " + c)
         elif name == "reincarnate":
             # an invitation, then the channel dies and is re-created by somebody else as +i / +x: the old invitation
             # must not open the new channel
